@@ -120,6 +120,9 @@ def gen_trace(seed, world, tier, mode=None):
     call = {"k": "call", "obj": "s0", "meth": meth, "args": [A],
             "tags": {"kind": kind, "m": m, "n": n, "cond": cond, "wrong_orientation": wrong, "scale": sc}}
     x = R.random() if mode is None else {"plain": 0.1, "clock": 0.55, "spd": 0.65, "jitter": 0.75, "sweep": 0.9}[mode]
+    if midsize and x >= 0.82:
+        x = 0.1     # no crash-point sweeps over mid-size solves: 48 re-executions under line monitoring
+                    # exceeded the 300 s wall limit of a run on a loaded machine (harness error, exit 2)
     if x < 0.45:
         pass
     elif x < 0.62:
